@@ -75,6 +75,7 @@ type c11Cmp struct {
 	m    *c11Model
 	keys map[string]string // foreign type name -> model key
 	ctx  string
+	src  string // oas2 | oas3 | xsd | sql
 }
 
 func (c *c11Cmp) fail(sig, format string, a ...interface{}) error {
@@ -206,6 +207,9 @@ func (c *c11Cmp) compare(w c11Want) error {
 			if wt.Alias != nil && wt.Alias.Class == "bool" && c.m.Types["EXTERNAL_"+wt.Name] != nil {
 				return c.fail("oas2:boolean-definition-becomes-external-string-alias", "definition %q of type boolean is imported as `!alias EXTERNAL_%s: string` (have %v)", wt.Name, wt.Name, have)
 			}
+			if c.src == "oas3" && wt.Alias != nil && wt.Alias.Class == "integer" && wt.Alias.Bits != 0 {
+				return c.fail("oas3:integer-definition-with-format-dropped", "definition %q (type integer with format int%d) is not imported at all, references to it dangle (have %v)", wt.Name, wt.Alias.Bits, have)
+			}
 			return c.fail("", "no type for %q (have %v)", wt.Name, have)
 		}
 		t := c.m.Types[key]
@@ -289,22 +293,35 @@ func (c *c11Cmp) compare(w c11Want) error {
 		}
 		if we.BodyRef != "" {
 			key, _ := c.typeKey(we.BodyRef)
-			// one body parameter per media type the body is offered in, each of the body's type
+			// the body in every media type it is offered in: one parameter of the body's type per media type
+			// (Go importers), or one parameter typed by a union of aliases of the body's type, one per
+			// media type (arr.ai OpenAPI 3 importer)
 			var gotMedia []string
 			for _, b := range ep.Body {
-				if b.Ref != key {
+				if b.Ref == key {
+					gotMedia = append(gotMedia, b.Attr["mediatype"])
+					continue
+				}
+				ut := c.m.Types[b.Ref]
+				if ut == nil || ut.Kind != "union" || len(ut.Fields) == 0 {
 					return c.fail("", "%s: body parameter %+v, want type %q", name, b, key)
 				}
-				gotMedia = append(gotMedia, b.Attr["mediatype"])
+				for _, alt := range ut.Fields {
+					at := c.m.Types[alt.Ref]
+					if at == nil || at.Kind != "alias" || at.Alias == nil || at.Alias.Ref != key {
+						return c.fail("", "%s: body parameter %+v is a union whose alternative %q is not an alias of %q", name, b, alt.Ref, key)
+					}
+					gotMedia = append(gotMedia, at.Attr["mediatype"])
+				}
 			}
 			wantMedia := append([]string{}, we.Media...)
 			sort.Strings(gotMedia)
 			sort.Strings(wantMedia)
-			if strings.Join(gotMedia, ",") != strings.Join(wantMedia, ",") {
+			if len(ep.Body) == 0 || (len(wantMedia) > 1 || len(gotMedia) > 1) && strings.Join(gotMedia, ",") != strings.Join(wantMedia, ",") {
 				return c.fail("", "%s: body parameters for media types %v, the foreign document offers the body as %v", name, gotMedia, wantMedia)
 			}
 		}
-		got := map[string]c11MRet{}
+	got := map[string]c11MRet{}
 		for _, r := range ep.Rets {
 			code := r.Code
 			if code == "" {
@@ -481,7 +498,7 @@ func checkC11(x *X, c c11Case) error {
 		sort.Strings(have)
 		return fmt.Errorf("compiled import has no application %q (have %v)%s", appName, have, ctx)
 	}
-	cmp := &c11Cmp{x: x, m: c11ModelOf(app), keys: map[string]string{}, ctx: ctx}
+	cmp := &c11Cmp{x: x, m: c11ModelOf(app), keys: map[string]string{}, ctx: ctx, src: c.Format}
 	if err := cmp.compare(c.Want); err != nil {
 		if _, isF := err.(*Finding); !isF && c.Format == "xsd" {
 			for _, cl := range c.Classes {
@@ -599,7 +616,7 @@ func c11ViaImportStmt(x *X, c c11Case, direct *c11Model, ctx string) error {
 		sort.Strings(have)
 		return fmt.Errorf("`import %s as Foreign :: %s`: application missing (have %v)%s", name, c11App, have, ctx)
 	}
-	cmp := &c11Cmp{x: x, m: c11ModelOf(app), keys: map[string]string{}, ctx: "\n(through the import statement)" + ctx}
+	cmp := &c11Cmp{x: x, m: c11ModelOf(app), keys: map[string]string{}, ctx: "\n(through the import statement)" + ctx, src: c.Format}
 	if err := cmp.compare(c.Want); err != nil {
 		return err
 	}
